@@ -35,11 +35,22 @@ class T(Base):
     dd = sa.Column(sa.Date)
 
 
+class Region(Base):
+    __tablename__ = "region"
+    id = sa.Column(sa.Integer, primary_key=True)
+    name = sa.Column(sa.String, nullable=False)
+    size = sa.Column(sa.Integer, nullable=False)
+    countries = relationship("Country", back_populates="region")
+
+
 class Country(Base):
     __tablename__ = "country"
     id = sa.Column(sa.Integer, primary_key=True)
     name = sa.Column(sa.String, nullable=False)
     code = sa.Column(sa.Integer, nullable=False)
+    # the one mandatory (NOT NULL) foreign key of the harness schema
+    region_id = sa.Column(sa.ForeignKey("region.id"), nullable=False)
+    region = relationship("Region", back_populates="countries")
     authors = relationship("Author", back_populates="country")
 
 
@@ -145,9 +156,9 @@ def load_scalar(rows):
 def load_relational(inst):
     with engine().begin() as con:
         for tb in (post_tags, Comment.__table__, Post.__table__, Tag.__table__,
-                   Author.__table__, Country.__table__):
+                   Author.__table__, Country.__table__, Region.__table__):
             con.execute(tb.delete())
-        for name, tb in (("country", Country.__table__), ("author", Author.__table__),
+        for name, tb in (("region", Region.__table__), ("country", Country.__table__), ("author", Author.__table__),
                          ("tag", Tag.__table__), ("post", Post.__table__),
                          ("comment", Comment.__table__)):
             if inst[name]:
